@@ -528,6 +528,34 @@ int _vnacal_new_add_common(vnacal_new_add_arguments_t vnaa)
     }
 
     /*
+     * An abbreviated B matrix has one row (column) for each port of the
+     * standard.  Make sure that each of these ports is one of the
+     * detecting (driving) ports of the calibration; otherwise, the row
+     * (column) has no place in the M matrix.
+     */
+    if (b_rows != full_m_rows || b_columns != full_m_columns) {
+	for (int s_port_index = 0; s_port_index < s_ports; ++s_port_index) {
+	    int port = (s_port_map != NULL) ?
+		s_port_map[s_port_index] : s_port_index + 1;
+
+	    if (b_rows != full_m_rows && port > full_m_rows) {
+		_vnacal_error(vcp, VNAERR_USAGE, "%s: %s must be %d: "
+			"port %d is not a detecting port", function,
+			vnaa.vnaa_m_type == 'a' ? "b_rows" : "m_rows",
+			full_m_rows, port);
+		goto out;
+	    }
+	    if (b_columns != full_m_columns && port > full_m_columns) {
+		_vnacal_error(vcp, VNAERR_USAGE, "%s: %s must be %d: "
+			"port %d is not a driving port", function,
+			vnaa.vnaa_m_type == 'a' ? "b_columns" : "m_columns",
+			full_m_columns, port);
+		goto out;
+	    }
+	}
+    }
+
+    /*
      * Create maps between the cells of the B and S matrices given in
      * the argument structure to the cells of the M and S matrices in the
      * vnacal_new_measurement_t structure, taking the diagonal cases and port
